@@ -1,6 +1,7 @@
 """C20 — each workflow step is all-or-nothing and independent steps commute."""
 import itertools
 import json
+import re
 import os
 import shutil
 import signal
@@ -48,14 +49,15 @@ STEPS = ["classify", "set-zeta-grid", "set-curvature", "rise", "recession"]
 NEEDS = {"rise": {"classify", "set-zeta-grid"}, "recession": {"classify", "set-zeta-grid"}}
 
 
-def argv_of(step, db, tr, zstep):
+def argv_of(step, db, tr, zstep, variant=False):
+    """`variant`: the same step asked again with other parameter values (must be refused like a plain repeat)"""
     if step == "classify":
-        return ["classify", db, "-s", repr(tr.s), "-j", repr(tr.j)]
+        return ["classify", db, "-s", repr(tr.s * (2 if variant else 1)), "-j", repr(tr.j * (3 if variant else 1))]
     if step == "set-zeta-grid":
-        return ["set-zeta-grid", db, "-d", repr(zstep)]
+        return ["set-zeta-grid", db, "-d", repr(zstep * 2.5 if variant else zstep)]
     if step == "set-curvature":
-        return ["set-curvature", db, "1.5"]
-    return [step, db]
+        return ["set-curvature", db, "0.75" if variant else "1.5"]
+    return [step, db] + (["-r", "0"] if variant else [])
 
 
 def classify_stmt(sql):
@@ -68,6 +70,9 @@ def classify_stmt(sql):
         return "r"
     if head in ("INSERT", "UPDATE", "DELETE", "REPLACE", "CREATE", "DROP", "ALTER"):
         return "w"
+    if head == "PRAGMA" and re.search(r"journal_mode|synchronous|locking_mode|writable_schema|journal_size_limit|mmap_size",
+                                      sql, re.I):
+        return "p"      # changes how (or whether) the engine journals: outside the model's transaction semantics
     return None
 
 
@@ -111,6 +116,10 @@ def child_run(argv, mode, k, out_path):
     def connect(path, *a, **kw):
         kw["factory"] = Con
         con = real_connect(path, *a, **kw)
+        if mode == "kill":
+            # a machine with little memory: SQLite then spills uncommitted pages into the file long before
+            # COMMIT, which is exactly when crash safety rests on the rollback journal
+            con.execute("PRAGMA cache_size = 4")
         con.set_trace_callback(tracer)
         con.set_authorizer(authorizer)
         return con
@@ -212,7 +221,13 @@ def run(ctx):
             copy_db(before_db, work)
             t = forked(argv_of(st, work, tr, zstep), "trace", -1, ctx.tmp)
             evs = [e for e in (classify_stmt(s) for s in t["stmts"]) if e]
+            pragmas = [s_ for s_ in t["stmts"] if classify_stmt(s_) == "p"]
+            evs = [e for e in evs if e != "p"]
             chk = ctx.driver.call("txn.check", {"events": evs})
+            if pragmas:
+                ctx.corr_break("SQL trace of each step is one transaction (singleTxnB) inside its declared footprint", {
+                    "input": dict(inp0, step=st), "impl": {"statements": pragmas},
+                    "no_longer_checks": "trusted base of Spowtd.Txn.atomic: the step changes the engine's journalling (%s)" % pragmas[0]})
             reads, writes = footprint_of([tuple(a) for a in t["auth"]])
             d = decl[st]
             fp_ok = writes <= set(d["writes"]) and (reads - VIEWS) <= set(d["reads"]) | set(d["writes"])
@@ -297,7 +312,7 @@ def run(ctx):
                     if not cands:
                         break
                     f = rng.choice(cands)
-                    rf = cli.run(argv_of(f, work, tr, zstep))
+                    rf = cli.run(argv_of(f, work, tr, zstep, variant=(f in done and rng.random() < 0.6)))
                     hist.append(f + "(!)" if rf[0] != "ok" else f + "(unexpectedly ok)")
                     if rf[0] == "ok":
                         ctx.count("failing_attempt_succeeded")
